@@ -119,7 +119,7 @@ impl<R: Acct, O: IndexContainer<R::Index> + IcCost> Acct for SliceRegion<R, O> {
     }
 }
 
-impl<R: Acct, O: IndexContainer<usize>> Acct for ColumnsRegion<R, O> {
+impl<R: Acct, O: IndexContainer<usize> + IcCost> Acct for ColumnsRegion<R, O> {
     fn lb(vals: &[&Vec<R::Owned>]) -> usize {
         let ncols = vals.iter().map(|v| v.len()).max().unwrap_or(0);
         let mut total = 0;
@@ -130,7 +130,8 @@ impl<R: Acct, O: IndexContainer<usize>> Acct for ColumnsRegion<R, O> {
             total += R::lb(&col);
         }
         // one stored index per cell (the column vector itself is bookkeeping that survives clear)
-        total + cells * std::mem::size_of::<R::Index>()
+        // plus one row offset per row where the offset container is a plain vector
+        total + cells * std::mem::size_of::<R::Index>() + O::cost(vals.len(), std::mem::size_of::<usize>())
     }
 }
 
